@@ -260,6 +260,9 @@ pub struct GenStats {
     /// program instances without a task (run as background programs every cycle)
     #[serde(default)]
     pub background: usize,
+    /// STRUCT and ARRAY types (declared or inline)
+    #[serde(default)]
+    pub aggregate_types: usize,
 }
 
 /// One small tape per entity, so that proptest shrinks by dropping whole entities.
@@ -773,7 +776,7 @@ impl<'a> Gen<'a> {
 
     fn gen_type(&mut self, ns: &[String]) {
         {
-            let kind = self.r.weighted(&[3, 3, 2, 2]);
+            let kind = self.r.weighted(&[2, 4, 3, 1]);
             // `Ns.Enum#Variant` is not accepted by the parser: enums stay global
             let prefix = if kind == 0 { let _ = self.r.word(); String::new() } else { self.ns_prefix(ns) };
             let mut text = String::new();
@@ -796,6 +799,7 @@ impl<'a> Gen<'a> {
                 }
                 1 => {
                     let name = self.ident("ST_");
+                    self.stats.aggregate_types += 1;
                     let nf = 1 + self.r.pick(5);
                     let mut fields = Vec::new();
                     text.push_str(&format!("TYPE {name} :\nSTRUCT\n"));
@@ -837,8 +841,15 @@ impl<'a> Gen<'a> {
                     let lo = [0i64, 1, -2, 10][self.r.pick(4)];
                     let hi = lo + 1 + self.r.pick(5) as i64;
                     let elem = self.scalar();
-                    text.push_str(&format!("TYPE {name} : ARRAY[{lo}..{hi}] OF {}; END_TYPE\n", elem.name()));
-                    UType::Arr { name: format!("{prefix}{name}"), lo, hi, elem }
+                    self.stats.aggregate_types += 1;
+                    if self.r.chance(1, 2) {
+                        // inline array type: no TYPE declaration, every variable declared with
+                        // it registers an anonymous array type of its own
+                        UType::Arr { name: format!("ARRAY[{lo}..{hi}] OF {}", elem.name()), lo, hi, elem }
+                    } else {
+                        text.push_str(&format!("TYPE {name} : ARRAY[{lo}..{hi}] OF {}; END_TYPE\n", elem.name()));
+                        UType::Arr { name: format!("{prefix}{name}"), lo, hi, elem }
+                    }
                 }
                 _ => {
                     let name = self.ident("T_");
@@ -849,8 +860,10 @@ impl<'a> Gen<'a> {
             };
             self.types.push(ut);
             self.stats.types += 1;
-            let text = self.wrap_ns(&prefix, text);
-            self.units.push((true, text));
+            if !text.is_empty() {
+                let text = self.wrap_ns(&prefix, text);
+                self.units.push((true, text));
+            }
         }
     }
 
@@ -886,7 +899,7 @@ impl<'a> Gen<'a> {
         let mut decl = String::new();
         let mut scalars = Vec::new();
         for _ in 0..n {
-            let kind = if rich { self.r.weighted(&[8, 1, 1, 2, 2, 2, 1]) } else { self.r.weighted(&[8, 1, 1, 0, 0, 0, 0]) };
+            let kind = if rich { self.r.weighted(&[8, 1, 1, 2, 3, 3, 1]) } else { self.r.weighted(&[8, 1, 1, 0, 0, 0, 0]) };
             match kind {
                 0 => {
                     let name = self.ident("v");
